@@ -93,7 +93,7 @@ func checkC26(c *Ctx, r *Report) {
 		}
 		r.Check(ok, r2, fn, lastSeg(cs.Callee), cs.Instr, "only for incomplete announcers", "a store is queried (and a handout built) for an announcer that reports completion")
 		if cs.Callee == "(tracker/peerstore.Store).GetPeers" {
-			r.Check(mentionsField(cs.Instr.Common().Args[1], "tracker/trackerserver.Config.PeerHandoutLimit"), r3, fn, "GetPeers limit", cs.Instr,
+			r.Check(isPureLoadOf(cs.Instr.Common().Args[1], "tracker/trackerserver.Config.PeerHandoutLimit"), r3, fn, "GetPeers limit", cs.Instr,
 				"limit is Config.PeerHandoutLimit", "the number of agents requested from the peer store is not the configured PeerHandoutLimit")
 		}
 	}
